@@ -297,9 +297,28 @@ def rule_e(ctx: Context, R: Reporter):
         init = {p: ("log", p)} if "log" in p else {p: Vec(sp.Integer(1), 1)}
         if "log" in p:
             init = {p: ("log", p)}
+        # a filter on the weight vector inside a routine that also counts it: the count N of "ESS / N", or of the [1, N]
+        # range, is then the number of entries the filter kept, not the number of weights the caller passed
+        counts = any((isinstance(x, ast.Call) and isinstance(x.func, ast.Name) and x.func.id == "len") or (isinstance(x, ast.Attribute) and x.attr in ("size", "shape"))
+                     for r in walk_no_nested(f.node) if isinstance(r, ast.Return) and r.value is not None for x in ast.walk(r.value))
+        filtered = False
+        for st in walk_no_nested(f.node):
+            if isinstance(st, ast.Assign) and len(st.targets) == 1 and isinstance(st.targets[0], ast.Name) and isinstance(st.value, ast.Subscript) and isinstance(st.value.value, ast.Name) \
+                    and st.value.value.id == st.targets[0].id:
+                sl = st.value.slice
+                is_mask = isinstance(sl, ast.Compare) or (isinstance(sl, ast.UnaryOp) and isinstance(sl.op, ast.Invert)) or \
+                    (isinstance(sl, ast.Call) and (ctx.res.external_name(f, sl) or "").split(".")[-1] in ("isfinite", "isnan", "isinf", "logical_not", "logical_and", "logical_or", "flatnonzero", "nonzero", "where"))
+                if is_mask and counts:
+                    filtered = True
+                    R.check("C20.e", f"{f.short} counts the weights it was given", False, f, st,
+                            msg=f"{f.short}: `{unparse(st)[:60]}` drops entries of the weight vector before the routine divides by / reports relative to its length: zero-weight "
+                                f"(-inf log-weight) samples no longer count, so ESS/N is taken over the surviving entries and reaches 1 for a non-uniform vector", key=f"ess-count-filtered:{f.short}")
         try:
             ret, env = run_function_powersums(ps, f.node, init)
         except Undecided as ex:
+            if filtered:
+                n += 1
+                continue
             raise AnalysisError(f"C20.e: {f.short} not decidable in the power-sum algebra: {ex}")
         n += 1
         S1, S2, N = ps.S(1), ps.S(2), ps.N
@@ -809,6 +828,8 @@ def variants():
 
     tl = "tempest/tools.py"
     return [
+        Variant("e-ess-drops-nonfinite-before-counting", "bad", insert_before("tempest/tools.py", "compute_ess", "logw_max = np.max(logw)", "logw = logw[np.isfinite(logw)]"), ["C20.e"], quick=True),
+
         Variant("h-ridge-on-full-rank", "bad", replace_expr(tl, "volume_variation", "np.linalg.matrix_rank(cov) < n_dim", "not np.linalg.matrix_rank(cov) < n_dim"), ["C20.h"], quick=True),
         Variant("h-mean-over-coordinates", "bad", replace_expr(tl, "volume_variation", "np.sum(x * w[:, np.newaxis], axis=0)", "np.sum(x * w[:, np.newaxis], axis=1)"), ["C20.h"]),
         Variant("h-unconditional-trace-ridge", "bad", replace_stmt(tl, "volume_variation", "cov = np.dot(xc.T, xc * w[:, np.newaxis])", "cov = np.dot(xc.T, xc * w[:, np.newaxis])\ncov = cov + 1e-9 * np.trace(cov) * np.eye(n_dim)"), ["C20.h"]),
